@@ -780,7 +780,7 @@ func (r *run) guarded(inc *incarnation, call string, sid int, fn func()) bool {
 		return true
 	case <-tm.C:
 	}
-	r.hang(inc, call, sid, t0)
+	r.hang(inc, call, sid, t0, done)
 	return false
 }
 
@@ -790,7 +790,7 @@ func (r *run) guarded(inc *incarnation, call string, sid int, fn func()) bool {
 // everything it can still deliver is delivered (as in the final phase), the observation "hang" is
 // recorded with what the persistence directory holds, and the run ends: the blocked incarnation
 // is abandoned (killed at teardown, unobserved).
-func (r *run) hang(inc *incarnation, call string, sid int, t0 time.Time) {
+func (r *run) hang(inc *incarnation, call string, sid int, t0 time.Time, done <-chan struct{}) {
 	if stalledFor(t0, time.Now()) > callStallMax {
 		r.setInconclusive("timing-stall: scheduler stalls while an API call was pending")
 		return
@@ -826,6 +826,14 @@ func (r *run) hang(inc *incarnation, call string, sid int, t0 time.Time) {
 		time.Sleep(10 * time.Millisecond)
 	}
 	r.ackCheck(inc)
+	select {
+	case <-done:
+		// it did return after all (at least callTimeout + stableFor late): not a blocked call, and
+		// not a run whose timing can be trusted
+		r.setInconclusive("timing-late: an API call returned after the watchdog bound")
+		return
+	default:
+	}
 	r.mu.Lock()
 	if !inc.dead && r.inconclusive == "" {
 		r.log = append(r.log, Event{"op": "hang", "call": call, "sid": sid, "inc": inc.id, "durable": r.durable(inc.dir), "down": r.downLocked()})
